@@ -38,7 +38,7 @@ def configs(tier):
                                    split_forks=(9 if n1 + n2 >= 5 else None))
         # asymmetric pairs with one long train (code that only triggers from 4-5 spikes on)
         for (n1, n2) in LONG[tier]:
-            for mt, mk in ((("none", "omit"),) if tier == "quick" else (("none", "omit"), ("pos", "omit"), ("none", "pos"))):
+            for mt, mk in ((("none", "omit"),) if tier == "quick" else (("none", "omit"), ("pos", "omit"))):
                 if mk == "pos" and max(n1, n2) > 5:
                     continue
                 yield dict(name="%s-mt%s-m%s-%d+%d" % (be, mt, mk, n1, n2), backend=be, mt=mt, m=mk, n1=n1, n2=n2,
